@@ -268,7 +268,7 @@ def init_string(variant="LA"):
 
 def gen_init_h(dirpath, variant="LA"):
     tmpl = open(os.path.join(REPO, "solver/init.h.in")).read()
-    out = tmpl.replace("@INIT_STRING@", init_string(variant))
+    out = tmpl.replace("@INIT_STRING@", init_string(variant)).replace("#cmakedefine", "#define")
     write_if_changed(os.path.join(dirpath, "init.h"), out)
 
 
